@@ -95,7 +95,7 @@ def materialize(env, spec, d):
             cmd = [env.zstd, '-q', '-f', '-3', '--single-thread', '--no-asyncio', tmp, '-o', zp] + (['-D', model['dictpath']] if model['dictpath'] else [])
             subprocess.run(cmd, stdout=subprocess.DEVNULL, stderr=subprocess.DEVNULL, cwd=d)
             os.unlink(tmp)
-            z = open(zp, 'rb').read(); v = fs.get('variant', 'valid'); rr = random.Random('v:%d' % fs['seed'])
+            z = open(zp, 'rb').read(); zvalid = z; v = fs.get('variant', 'valid'); rr = random.Random('v:%d' % fs['seed'])
             if v == 'corrupt' and len(z) > 12: z = bytearray(z); z[rr.randrange(6, len(z))] ^= 0x5A; z = bytes(z)
             elif v == 'trunc' and len(z) > 6: z = z[:rr.randrange(5, len(z))]
             elif v == 'garbage': z = z + b'\x11\x22\x33trailing-garbage'
@@ -105,8 +105,8 @@ def materialize(env, spec, d):
             ok, data, msg = library_verdict(env, zp, model['dictpath'])
             model['expect'][fs['name'] + '.zst'] = data if ok else None
             # documented pass-through: 'zstd -d -f -c' copies bytes of an unrecognised format to stdout as they are, so a valid frame
-            # followed by trailing garbage is accepted (frame decoded, garbage copied) although the library rejects the file as a whole
-            if v == 'garbage' and spec['op'] == 'd' and '-f' in spec['flags'] and spec.get('stdout'): model['expect'][fs['name'] + '.zst'] = raw + b'\x11\x22\x33trailing-garbage'
+            # followed by trailing garbage or by 1-3 stray bytes is accepted (frame decoded, the rest copied) although the library rejects the file as a whole
+            if v in ('garbage', 'tail') and spec['op'] == 'd' and '-f' in spec['flags'] and spec.get('stdout'): model['expect'][fs['name'] + '.zst'] = raw + z[len(zvalid):]
         if spec.get('preexisting') and not spec.get('stdout'):   # with -c the 'destination' is the caller's stdout redirection, not zstd's business
             dp = dest_of(spec, fs)
             if dp and dp not in model['pre']:
